@@ -200,6 +200,52 @@ def pair_cases(draw):
     return c
 
 
+@st.composite
+def many_shard_cases(draw):
+    """64..216 chunks spread over more than 32 / 64 shards, most of the grid
+    stored, random orders (a shard is revisited after many others)."""
+    grid = [draw(st.integers(4, 6)) for _ in range(3)]
+    positions = sc.grid_positions(grid)
+    drop = draw(st.lists(st.sampled_from(positions), unique=True,
+                         max_size=6))
+    subset = [p for p in positions if p not in drop]
+    order = draw(st.permutations(subset))
+    c = {"grid": grid, "cs": draw(st.sampled_from([1, 2])), "rem": [0, 0, 0],
+         "bits": [draw(st.integers(0, 2)), draw(st.integers(5, 8)),
+                  draw(st.integers(0, 1))],
+         "index_enc": draw(st.sampled_from(["raw", "gzip"])),
+         "data_enc": draw(st.sampled_from(["raw", "gzip"])),
+         "order": [list(p) for p in order],
+         "strategy": draw(st.sampled_from(["on disk", "in memory"])),
+         "seed": draw(st.integers(0, 2 ** 16))}
+    kind = draw(st.sampled_from(["shuffle", "raster_x", "raster_z"]))
+    if kind == "raster_x":
+        c["order2"] = [list(p) for p in sorted(subset, key=lambda p: (
+            p[2], p[1], p[0]))]
+    elif kind == "raster_z":
+        c["order2"] = [list(p) for p in sorted(subset)]
+    else:
+        c["order2"] = [list(p) for p in draw(st.permutations(subset))]
+    c["strategy2"] = draw(st.sampled_from(["on disk", "in memory"]))
+    c["two_scales"] = False
+    return c
+
+
+def run_many_shards(ctx, n):
+    from vlib.refs import morton as mt
+
+    def check(ctx, case):
+        check_case(ctx, case)
+        mini, shard, pre = case["bits"]
+        shards = {mt.route(sc.chunk_id(tuple(p), case["grid"]), pre, mini,
+                           shard)[0] for p in case["order"]}
+        ctx.record(case, len(shards) > 32, ["shards>32" if len(shards) > 32
+                                            else "shards<=32",
+                                            "shards>64" if len(shards) > 64
+                                            else "shards<=64"])
+    ctx.run_hypothesis(many_shard_cases(), check, n)
+
+
 def run_pairs(ctx, n):
     def check(ctx, case):
         if not case["order"]:
@@ -310,6 +356,8 @@ def replay(ctx, case):
 
 SUBS = [
     Sub("pairs", run_pairs, replay, quick=1200, thorough=30000),
+    Sub("many_shards", run_many_shards, replay, quick=84, thorough=2000,
+        min_per_shard=6),
     Sub("perm_exhaustive", run_exhaustive, replay, quick=1, thorough=1,
         shards=14, sweep=True),
 ]
